@@ -625,12 +625,41 @@ class CallGraph:
         return out
 
 
+_LOCK_PARAM = re.compile(r"dashmap::DashMap<|std::sync::Mutex<|std::sync::RwLock<|tokio::sync::RwLock<|tokio::sync::Mutex<")
+
+
+def specialise_lock_param_helpers(crate):
+    """A helper that is handed a lock / concurrent map by reference (`fn lookup(cache: &DashMap<..>, ..)`) has no lock
+    identity of its own: the identity is the caller's argument.  Every call of such a helper is replaced by the helper's
+    body in the caller (inline_fn), so that all lock / map rules see the operation where its receiver resolves to a struct
+    field.  Helpers all of whose calls could be replaced are recorded in crate.lock_param_helpers and skipped by the lock
+    model; a helper with a remaining call keeps its (unresolvable) operations, which the rules report."""
+    H = set()
+    for f in crate.real_fns():
+        if f.kind in ("fn", "method") and f.phase == "elaborated":
+            for i in range(1, f.argc + 1):
+                ty = f.local_ty(i)
+                if ty.startswith("&") and _LOCK_PARAM.search(ty):
+                    H.add(f.id)
+    crate.lock_param_helpers = set()
+    if not H:
+        return
+    for g in list(crate.real_fns()):
+        if any(c.get("res") in H and c.get("res_local") for _bb, c in g.calls()):
+            crate.fns[g.id] = inline_fn(crate, g, depth=3, max_blocks=400, pred=lambda x: x.id in H)
+    remaining = {c.get("res") for g in crate.real_fns() if g.id not in H for _bb, c in g.calls()} & H
+    # a helper calling another helper: the inner one is inlined into the outer one, and the outer into its callers
+    crate.lock_param_helpers = H - remaining
+    crate._closure_sites = None
+
+
 def load_crates(facts_dir):
     out = {}
     for lab in ("bin", "lib"):
         p = os.path.join(facts_dir, "pytest_language_server-%s.json" % lab)
         if os.path.exists(p):
             out[lab] = Crate(p)
+            specialise_lock_param_helpers(out[lab])
     return out
 
 
